@@ -151,7 +151,7 @@ class Public(Case):
 
     def inputs(self, mk):
         p = self.params
-        specs = [shell_spec(mk, "ABCD"[i], l, K, M) for i, (l, K, M) in enumerate(zip(p["ls"], p["Ks"], p["Ms"]))]
+        specs = cm.specs_from(mk, p)
         pts = [[mk.var(f"P{i}{x}") for x in "xyz"] for i in range(p.get("npts", 1))]
         nfun = sum(cm.nfun(l, t) * M for l, t, M in zip(p["ls"], p["types"], p["Ms"]))
         T = None
